@@ -225,6 +225,18 @@ def run_kernels(shard, rec, NB, TB):
         ints = rng.integers(0, 64, int(rng.integers(1, 6)))
         w = 6
         both(rec, "k.binary_repr", ints, lambda: U.binary_repr(np.array(ints, dtype=np.int64), w), lambda: V.binary_repr(TB.torch.tensor(ints), w), NB, TB)
+        w = [7, 8, 9, 15, 16, 17, 20, 33][it % 8]
+        ints = rng.integers(0, 2 ** w, 5)
+        wantb = np.array([[(int(v) >> (w - 1 - b)) & 1 for b in range(w)] for v in ints])
+        r_ = both(rec, "k.binary_repr", [ints, w], lambda: U.binary_repr(np.array(ints, dtype=np.int64), w), lambda: V.binary_repr(TB.torch.tensor(ints), w), NB, TB)
+        if r_ is not None:
+            rec.check("k.binary_repr.value", np.array_equal(np.asarray(r_[0]).astype(int), wantb), [ints, w], True, expected=wantb, observed=np.asarray(r_[0]).astype(int))
+        ar = np.arange(2 ** [3, 9, 10][it % 3])
+        r_ = both(rec, "k.binary_repr", ["arange", len(ar)], lambda: U.binary_repr(ar.copy()), lambda: V.binary_repr(TB.torch.tensor(ar)), NB, TB)
+        if r_ is not None:
+            wd = int(np.log2(len(ar)))
+            wantb = (ar[:, None] >> np.arange(wd)[::-1]) & 1
+            rec.check("k.binary_repr.value", np.array_equal(np.asarray(r_[0]).astype(int), wantb), ["arange", len(ar)], True)
         data = gen.rand_coeffs(rng, 6)
         inds = rng.integers(0, 3, 6)
         both(rec, "k.aggregate", [data, inds], lambda: U.aggregate(NB.carr(data), np.array(inds), 3),
@@ -324,6 +336,15 @@ def run_classes(shard, rec, NB, TB):
         both(rec, "c.PauliPolynomial.matmul.pauli", pc, lambda: Ha @ Pa, lambda: Hb @ Pb, NB, TB)
         both(rec, "c.PauliPolynomial.reduce", pc, lambda: (Ha @ Ka).reduce(1e-4), lambda: (Hb @ Kb).reduce(1e-4), NB, TB, canon=poly_canon)
         both(rec, "c.PauliPolynomial.trace", pc, lambda: complex(Ha.trace()), lambda: complex(TB.cnp(Hb.trace())), NB, TB)
+        # near-duplicate strings (equal up to one far site) must be kept apart by reduce / + in both packages
+        nd = np.stack([gs[0]] * 4)
+        for j_, q_ in enumerate((N - 1, N // 2, 0)):
+            nd[j_ + 1, 2 * q_ + (j_ % 2)] ^= 1
+        ndp, ndc = rng.integers(0, 4, 4), gen.rand_coeffs(rng, 4) + 0.5
+        both(rec, "c.PauliPolynomial.reduce.near", {"N": N, "base": O.g2s(gs[0])}, lambda: NB.Poly(nd.copy(), ndp.copy(), ndc.copy()).reduce(1e-4),
+             lambda: TB.Poly(nd.copy(), ndp.copy(), ndc.copy()).reduce(1e-4), NB, TB, canon=poly_canon)
+        both(rec, "c.PauliPolynomial.add.near", {"N": N, "base": O.g2s(gs[0])}, lambda: NB.Poly(nd.copy(), ndp.copy(), ndc.copy()) + Ha,
+             lambda: TB.Poly(nd.copy(), ndp.copy(), ndc.copy()) + Hb, NB, TB, canon=poly_canon)
         if N <= 3:
             both(rec, "c.PauliPolynomial.to_qutip", pc, lambda: Ha.to_qutip(), lambda: Hb.to_qutip(), NB, TB)
         # maps
@@ -401,6 +422,23 @@ def run_circuits(shard, rec, NB, TB):
                     return o1, o2, repr(layers), maps
                 both(rec, "c.circuit.forward.%s.%s" % (variant, comp), desc, lambda: runit(NB), lambda: runit(TB), NB, TB)
                 both(rec, "c.circuit.backward.%s.%s" % (variant, comp), desc, lambda: runit(NB, back=True), lambda: runit(TB, back=True), NB, TB)
+        # ONE live circuit per backend grown in stages: take, compile, take more (gates that slide into earlier layers), compile again
+        def staged(B_):
+            circ = B_.circuit.identity_circuit(N)
+            h = max(1, len(prog) // 2)
+            for s_ in prog[:h]:
+                circ.take(PR.make_gate(B_, s_, N))
+            circ.compile(N)
+            o0 = B_.PauliList(gs.copy(), ps.copy())
+            circ.forward(o0)
+            for s_ in prog[h:]:
+                circ.take(PR.make_gate(B_, s_, N))
+            circ.compile(N)
+            o1, o2 = B_.PauliList(gs.copy(), ps.copy()), B_.State(tg.copy(), tp.copy(), r)
+            circ.forward(o1)
+            circ.backward(o2)
+            return o0, o1, o2, circ.forward_map
+        both(rec, "c.circuit.staged", desc, lambda: staged(NB), lambda: staged(TB), NB, TB)
         # diagonalize: same circuits (gate qubits and generators) and same action
         g = gen.rand_nonid(rng, N)
         p = int(rng.integers(4))
